@@ -407,10 +407,32 @@ impl VirtualSystem {
         flags: EnumSet<OpenFlag>,
         mode: Mode,
     ) -> Result<(Rc<RefCell<Inode>>, bool, bool)> {
-        let path = self.resolve_relative_path(Path::new(UnixStr::from_bytes(path.to_bytes())));
+        const _POSIX_SYMLOOP_MAX: i32 = 8;
+
+        let mut path = self
+            .resolve_relative_path(Path::new(UnixStr::from_bytes(path.to_bytes())))
+            .into_owned();
         let umask = self.current_process().umask;
 
         let mut state = self.state.borrow_mut();
+
+        // Follow symbolic links in the last component of the path. (A file
+        // being created exclusively must not be reached through a link.)
+        if !flags.contains(OpenFlag::NoFollow) && !flags.contains(OpenFlag::Exclusive) {
+            let mut count = 0;
+            while let Ok(inode) = state.file_system.get(&path) {
+                let FileBody::Symlink { target } = &inode.borrow().body else {
+                    break;
+                };
+                count += 1;
+                if count > _POSIX_SYMLOOP_MAX {
+                    return Err(Errno::ELOOP);
+                }
+                path.pop();
+                path.push(target);
+            }
+        }
+
         let file = match state.file_system.get(&path) {
             Ok(inode) => {
                 if flags.contains(OpenFlag::Exclusive) {
